@@ -246,7 +246,7 @@ class Run:
                     bad.append((json.loads(lines[v["i"] - 1]), v["v"]))
         return bad
 
-    def record_and_validate(self, n, seed_salt=0, maxlen=90, parse_only=50, chunks=None, pinned=None):
+    def record_and_validate(self, n, seed_salt=0, maxlen=90, parse_only=50, chunks=None, pinned=None, host_alphabet=None, host_len=3):
         """T-mode: seeded random drivers on the real code (vh record) -> TLC (Trace_Api.tla). Returns [(event, verdicts)]."""
         chunks = chunks or min(12, NCPU)
         pre = os.path.join(self.scratch, "trace%d.ev" % seed_salt)
@@ -254,6 +254,8 @@ class Run:
                "--corpus", os.path.join(VERIF, "vectors", "urltestdata.json"), "--maxlen", str(maxlen), "--parse-only-percent", str(parse_only)]
         if pinned:
             cmd += ["--pinned", json.dumps(pinned)]
+        if host_alphabet:
+            cmd += ["--host-alphabet", json.dumps(host_alphabet), "--host-len", str(host_len)]
         t0 = time.time()
         p = subprocess.run(cmd, cwd=self.scratch, capture_output=True, text=True, timeout=600)
         m = re.search(r"EVENTS kind=record n=(\d+) histories=(\d+)", p.stdout)
